@@ -6,6 +6,7 @@ import (
 )
 
 const verifRequestRawMaxL = 24
+const verifC12HdrLen = 2
 const verifRequestRestMaxL = 14
 
 type verifSnap struct {
